@@ -267,6 +267,7 @@ type CCase struct {
 	Point     string `json:"point"`     // recv-blocked | send-blocked | between | before-first
 	Mechanism string `json:"mechanism"` // cancel | close
 	MsgsFirst int    `json:"msgs_first"` // messages exchanged before the cancel point
+	PathSlash bool   `json:"path_slash"` // plain HTTP: the request path carries a trailing '/' (the mux normalises it before routing)
 }
 
 type hstate struct {
@@ -472,6 +473,9 @@ func CheckCancel(c CCase) (vs []evid.Violation, verified bool) {
 				path = "/un.C15/ClientS"
 			}
 		}
+		if c.PathSlash && c.Transport == "http1" {
+			path += "/"
+		}
 		fmt.Fprintf(conn, "POST %s HTTP/1.1\r\nHost: x\r\nContent-Type: %s\r\nTransfer-Encoding: chunked\r\n\r\n", path, ct)
 		writeChunk := func(b []byte) { fmt.Fprintf(conn, "%x\r\n%s\r\n", len(b), b) }
 		n := c.MsgsFirst
@@ -560,6 +564,7 @@ func TestPropCancel(t *testing.T) {
 			MsgsFirst: rapid.IntRange(1, 3).Draw(t, "msgsFirst"),
 		}
 		c.Mechanism = "close"
+		c.PathSlash = c.Transport == "http1" && rapid.Bool().Draw(t, "pathSlash")
 		if c.Transport == "http1gz" {
 			c.Point = "recv-blocked" // gzip-encoded HttpBody upload cut in the middle of the compressed stream
 		}
@@ -577,7 +582,7 @@ func TestPropCancel(t *testing.T) {
 		}
 		key := ""
 		if verified {
-			key = fmt.Sprintf("c|%s|%s|%s|%d", c.Transport, c.Point, c.Mechanism, c.MsgsFirst)
+			key = fmt.Sprintf("c|%s|%s|%s|%d|%v", c.Transport, c.Point, c.Mechanism, c.MsgsFirst, c.PathSlash)
 		}
 		evid.Eval(key, "cancel", "transport="+c.Transport, "point="+c.Point)
 		evid.Sample("cancel", c)
